@@ -862,10 +862,16 @@ class Interp:
         i = z3.Int('i!w')
         kw = z3.String('k!w')
         keys, has, n = st.D_key[r], st.D_has[r], st.D_n[r]
-        st.fact(z3.ForAll([i], z3.Implies(z3.And(0 <= i, i < n), has[keys[i]]), patterns=[keys[i]]))
-        st.fact(z3.ForAll([kw], z3.Implies(has[kw], z3.And(0 <= dict_pos(keys, kw), dict_pos(keys, kw) < n,
-                                                           keys[dict_pos(keys, kw)] == kw)),
-                          patterns=[has[kw]]))
+        b1 = z3.Implies(z3.And(0 <= i, i < n), has[keys[i]])
+        b2 = z3.Implies(has[kw], z3.And(0 <= dict_pos(keys, kw), dict_pos(keys, kw) < n, keys[dict_pos(keys, kw)] == kw))
+        try:
+            if z3.is_app(r) and r.decl().kind() == z3.Z3_OP_ITE:
+                raise z3.Z3Exception('ite reference')
+            st.fact(z3.ForAll([i], b1, patterns=[keys[i]]))
+            st.fact(z3.ForAll([kw], b2, patterns=[has[kw]]))
+        except z3.Z3Exception:      # the reference is an if-then-else term: not usable as a trigger
+            st.fact(z3.ForAll([i], b1))
+            st.fact(z3.ForAll([kw], b2))
 
     # ---------------------------------------------------------------- lifting python constants
     def lift(self, o) -> SV:
@@ -874,6 +880,8 @@ class Interp:
         if isinstance(o, bool):
             return mk_bool(o)
         if isinstance(o, int):
+            if type(o) is not int:          # enum.IntFlag such as re.DOTALL: kept as the Python constant
+                return SV('const', py=o)
             return mk_int(o)
         if isinstance(o, str):
             return mk_str(o)
@@ -888,7 +896,7 @@ class Interp:
         k = v.k
         if k == 'none':
             return z3.BoolVal(False)
-        if k == 'bool':
+        if k == 'bool' or k == 'match':      # match: a re.Match-or-None used for its truth value only
             return v.e
         if k == 'int':
             return v.e != 0
@@ -2859,6 +2867,12 @@ class Interp:
             return [self.list_get(v.e, z3.IntVal(i), v.T) for i in range(n)]
         if v.k == 'pgroup':
             return self.pgroup_unpack(v, n)
+        if v.k == 'val' and v.T is not None and v.T[0] != 'any':
+            # a boxed value of a union type: the list alternative the path condition leaves possible
+            for a in type_alternatives(v.T):
+                if a[0] == 'list' and self.decide(z3.And(Val.is_r(v.e), cls_of(Val.rv(v.e)) == self.reg.cid('list'))):
+                    return self.unpack(self.unbox(v.e, a), n)
+            raise PyRaise(TypeError, (), 'cannot unpack non-iterable value')
         raise Unsupported(f'unpack {v.k}')
 
     def setitem(self, obj: SV, idx: SV, v: SV):
